@@ -119,7 +119,15 @@ func c05Stream(c *sim.Ctx) (stream []byte, plans []string) {
 	}
 	n := 1 + t.Pick(5, 2, 1)
 	for i := 0; i < n; i++ {
-		f, fm := ref.Encode(gen.Packet(t, cfg))
+		var f []byte
+		var fm []ref.Field
+		if t.Bool(1, 8) {
+			// thousands of tiny list elements: where super-linear work would show
+			f, fm = ref.Encode(gen.Bulk(t, c.Thorough))
+			c.Count("probe.bulk-list-frame")
+		} else {
+			f, fm = ref.Encode(gen.Packet(t, cfg))
+		}
 		if t.Bool(1, 4) {
 			stream = append(stream, f...)
 			plans = append(plans, "valid")
